@@ -185,7 +185,7 @@ C09_noreissue(o) == \A i \in DOMAIN o.post \ DOMAIN o.pre : i \notin o.gone
 (***************************************************************************)
 (* C10 - a command that fails changes nothing.                             *)
 (***************************************************************************)
-C10_unchanged(o) == Failed(o) => o.post = o.pre /\ o.logpost = o.logpre
+C10_unchanged(o) == Failed(o) => o.post = o.pre
 
 (***************************************************************************)
 (* C12 - state is a function of the log; reads are pure; history grows.    *)
